@@ -846,8 +846,10 @@ def simp_cc_conds(_, expr):
           expr.args[2].is_op("FLAG_EQ_CMP") and
           expr.args[0].args == expr.args[2].args and
           expr.args[1].is_int(0)):
+        # No overflow flag: test the sign of A - B
+        arg0, arg1 = expr.args[0].args
         expr = ExprCond(
-            ExprOp(TOK_INF_EQUAL_SIGNED, *expr.args[0].args),
+            ExprOp(TOK_INF_EQUAL_SIGNED, arg0 - arg1, ExprInt(0, arg0.size)),
             ExprInt(0, expr.size),
             ExprInt(1, expr.size)
         )
@@ -900,7 +902,9 @@ def simp_cc_conds(_, expr):
           expr.args[2].is_op("FLAG_EQ_CMP") and
           expr.args[0].args == expr.args[2].args and
           expr.args[1].is_int(0)):
-        expr = ExprOp(TOK_INF_EQUAL_SIGNED, *expr.args[0].args)
+        # No overflow flag: test the sign of A - B
+        arg0, arg1 = expr.args[0].args
+        expr = ExprOp(TOK_INF_EQUAL_SIGNED, arg0 - arg1, ExprInt(0, arg0.size))
 
     elif (expr.is_op("CC_U<=") and
           test_cc_eq_args(
